@@ -6,9 +6,13 @@
    [c], [s] are arbitrary rationals (the code's np.cos / np.sin).  add_gradients is a function [add]
    with the hypothesis [AddIsSumP] = property C16 (rendering of the sum = pointwise sum, channel of the
    first summand).  [NoDrop]: every scaled component and both per-channel sums reach the elimination
-   threshold 1e-6 * max_mag. *)
-From Coq Require Import ZArith QArith Qabs List Bool.
-From PV Require Import Base.QUtil Base.PWL Gen.GenGradOps Model.GradOps Proofs.GradOpsProofs Proofs.RotateProofs.
+   threshold 1e-6 * max_mag.  The second half of the file drops both hypotheses: C17_rotate_matrix_up_to_drop
+   (all inputs, budget of the dropped components) and C17_rotate_c16_matrix_up_to_drop (add_gradients
+   instantiated by the model of property C16). *)
+From Coq Require Import ZArith QArith Qabs List Bool Lqa Lia.
+From PV Require Import Base.QUtil Base.PWL Gen.GenGradOps Model.GradOps Proofs.GradOpsProofs Proofs.RotateProofs
+  Proofs.RotateDrop Proofs.RotateC16 Model.GradBridge.
+From PV Require Model.AddGrad Proofs.AddGradLegal.
 Import ListNotations.
 Open Scope Q_scope.
 
@@ -57,21 +61,102 @@ Theorem C17_rotate_norm_preserved : forall r add, AddIsSumP r add ->
 Proof. exact rotate_norm. Qed.
 Print Assumptions C17_rotate_norm_preserved.
 
-(* dropped components: a component is dropped only when its magnitude is below the threshold; the
-   magnitude bounds the waveform of trapezoids and extended trapezoids at every time, so dropping moves
-   the channel sum by at most (number of components) * threshold.
-   PARTIAL: the bound is proved for the elimination step ([drop_small]) and not yet threaded through
-   [rotate] as one statement; arbitrary shapes are excluded because their rendering contains the edge
-   values first/last, which the magnitude test of the code ignores. *)
+(* ---- dropped components, ALL inputs -------------------------------------------------------------------
+   [rot_parts c s a0 a1 evs] = (R1, R2, thr): the scaled components destined for the two rotated axes
+   and the elimination threshold 1e-6 * max_mag.  [chan_budget r thr add R] = sum over the components of
+   R below the threshold of max(thr, edge) + the same for the per-channel sum when IT is below the
+   threshold; edge = max(|first|,|last|) for an arbitrary shape (its rendering contains these values,
+   the magnitude test of the code does not look at them) and 0 for trapezoids / extended trapezoids. *)
+
+(* |g(t)| <= max(magnitude tested by rotate, edge) for every kind of gradient, arbitrary shapes included *)
+Theorem C17_peak_bound : forall r g t, Qabs (gev r g t) <= Qmax (gmag g) (gedge r g).
+Proof. exact peak_bound. Qed.
+Print Assumptions C17_peak_bound.
+
 Theorem C17_magnitude_bounds_waveform : forall r g t, not_arb r g -> Qabs (gev r g t) <= gmag g.
 Proof. exact mag_bound. Qed.
 Print Assumptions C17_magnitude_bounds_waveform.
 
-Theorem C17_dropped_bound_partial : forall r thr l t,
-  0 <= thr -> (forall g, In g l -> Qabs (gev r g t) <= gmag g) ->
-  Qabs (gsum r l t - gsum r (drop_small thr l) t) <= inject_Z (Z.of_nat (length l)) * thr.
-Proof. exact drop_bound. Qed.
-Print Assumptions C17_dropped_bound_partial.
+(* rotate_matrix_up_to_drop: for ALL event lists, all rational c and s, all axes, no NoDrop hypothesis.
+   add_gradients is any function that is the sum up to e on the lists P it is applied to. *)
+Theorem C17_rotate_matrix_up_to_drop : forall r add (P : list grad -> Prop) e, 0 <= e ->
+  (forall l g, l <> [] -> P l -> add l = OK g ->
+     (forall t, Qabs (gev r g t - gsum r l t) <= e) /\ g_ch g = g_ch (hd g l)) ->
+  forall c s axis evs out a0 a1,
+  axes_of axis = Some (a0, a1) -> rotate add c s axis evs = OK out ->
+  let '(R1, R2, thr) := rot_parts c s a0 a1 evs in
+  (drop_small thr R1 <> [] -> P (drop_small thr R1)) ->
+  (drop_small thr R2 <> [] -> P (drop_small thr R2)) ->
+  forall t,
+    Qabs (render r a0 out t - (c * render r a0 evs t - s * render r a1 evs t)) <= chan_budget r thr add R1 + e /\
+    Qabs (render r a1 out t - (s * render r a0 evs t + c * render r a1 evs t)) <= chan_budget r thr add R2 + e.
+Proof. exact rotate_matrix_up_to_drop. Qed.
+Print Assumptions C17_rotate_matrix_up_to_drop.
+
+(* (number of dropped components) * threshold, when no edge value exceeds the threshold *)
+Theorem C17_budget_is_count_times_threshold : forall r thr add R, 0 <= thr ->
+  (forall g, In g R -> gedge r g <= thr) ->
+  (forall sg, add (drop_small thr R) = OK sg -> gedge r sg <= thr) ->
+  chan_budget r thr add R <= inject_Z (Z.of_nat (n_dropped thr add R)) * thr.
+Proof. exact chan_budget_count. Qed.
+Print Assumptions C17_budget_is_count_times_threshold.
+
+(* ---- with the REAL add_gradients (model of property C16, Model/AddGrad.v) ---------------------------------
+   [add_c16 s] converts the events to the records of Model/AddGrad.v, calls its add_gradients with the
+   system limits and converts the result back.  [LegalList s D l]: the events are trapezoids / extended
+   trapezoids that one block of duration D can hold (C05Legal of property C16: timings on the raster,
+   non-negative delays, a gradient away from zero at its start has zero delay, at its end ends at D).
+   No hypothesis about add_gradients remains: the equal-timing path (C16_add_trap_path_sum), the
+   corner-union path (C16_add_ext_path_sum_legal) and the single-summand path are used as proved. *)
+Theorem C17_add_c16_is_sum : forall s D l g, l <> [] -> LegalList s D l -> add_c16 s l = OK g ->
+  (forall t, Qabs (gev (raster s) g t - gsum (raster s) l t) <= AddGrad.eps) /\
+  g_ch g = g_ch (hd g l) /\ not_arb (raster s) g.
+Proof. exact add_c16_approx. Qed.
+Print Assumptions C17_add_c16_is_sum.
+
+Theorem C17_rotate_c16_matrix_up_to_drop : forall s D c sn axis evs out a0 a1,
+  axes_of axis = Some (a0, a1) ->
+  (grads_on a0 evs ++ grads_on a1 evs <> [] -> LegalList s D (grads_on a0 evs ++ grads_on a1 evs)) ->
+  rotate (add_c16 s) c sn axis evs = OK out ->
+  let r := raster s in
+  let '(R1, R2, thr) := rot_parts c sn a0 a1 evs in
+  forall t,
+    Qabs (render r a0 out t - (c * render r a0 evs t - sn * render r a1 evs t))
+      <= inject_Z (Z.of_nat (n_dropped thr (add_c16 s) R1)) * thr + AddGrad.eps /\
+    Qabs (render r a1 out t - (sn * render r a0 evs t + c * render r a1 evs t))
+      <= inject_Z (Z.of_nat (n_dropped thr (add_c16 s) R2)) * thr + AddGrad.eps.
+Proof. exact rotate_c16_matrix_up_to_drop. Qed.
+Print Assumptions C17_rotate_c16_matrix_up_to_drop.
+
+(* non-vacuity: x and y trapezoids with the same timing (equal-timing path of add_gradients) and an
+   extended trapezoid on y, rotated about z by (3/5, 4/5): legal, and rotate returns two events *)
+Definition c17_ex_sys := mkSys 1 1000000 1000000.
+Definition c17_ex_evs :=
+  [RG (GTrap (mkTrap 0 1000 1 2 1 0 3000 2000 None)); RO 5;
+   RG (GTrap (mkTrap 1 (-500) 1 2 1 0 (-1500) (-1000) None));
+   RG (GExt (mkEg 1 1 [0; 2; 4] [0; 300; 0] 4 0 0 (Some 600) None))].
+
+Example C17_c16_example_legal : LegalList c17_ex_sys 5 (grads_on 0 c17_ex_evs ++ grads_on 1 c17_ex_evs).
+Proof.
+  split; [|vm_compute; reflexivity]. constructor.
+  - discriminate.
+  - intros g [<-|[<-|[<-|[]]]]; cbn; repeat split; try lra; try discriminate; reflexivity.
+  - vm_compute. discriminate.
+  - intros g c [<-|[<-|[<-|[]]]] Hc; cbn in Hc; repeat (destruct Hc as [<-|Hc]); try destruct Hc;
+      first [exists 0%Z; reflexivity | exists 1%Z; reflexivity | exists 2%Z; reflexivity
+            | exists 3%Z; reflexivity | exists 4%Z; reflexivity | exists 5%Z; reflexivity].
+  - intros g [<-|[<-|[<-|[]]]]; cbn; lra.
+  - intros g [<-|[<-|[<-|[]]]]; cbn; lra.
+  - intros g [<-|[<-|[<-|[]]]] Hn; cbn in *; try reflexivity; exfalso; apply Hn; reflexivity.
+  - intros g [<-|[<-|[<-|[]]]] Hn; cbn in *; exfalso; apply Hn; reflexivity.
+Qed.
+
+Example C17_c16_example_runs :
+  match rotate (add_c16 c17_ex_sys) (3 # 5) (4 # 5) 2 c17_ex_evs with
+  | OK [RO 5; RG gx; RG gy] => Nat.eqb (g_ch gx) 0 && Nat.eqb (g_ch gy) 1
+  | _ => false
+  end = true.
+Proof. vm_compute. reflexivity. Qed.
 
 (* non-vacuity: add_gradients restricted to one summand (a copy) satisfies the hypothesis *)
 Example C17_add_single_is_sum : forall r, AddIsSumP r add_single.
